@@ -40,7 +40,7 @@ unital_iff_col '''.split() + [
     'FFVerif.C10.frequency_shifts_hermitian_part', 'FFVerif.C10.frequency_shifts_symmetric_part']
 LEAN_MODULES = ['FFVerif.Props.C09', 'FFVerif.Props.C09Exp', 'FFVerif.Props.C09cCP', 'FFVerif.Props.C09EtmCP',
                 'FFVerif.Props.C09EtmCPLiou', 'FFVerif.Props.C09EtmChoi', 'FFVerif.Props.C10Shifts',
-                'FFVerif.Props.C09EtmFn', 'FFVerif.Props.C09EtmFnShapes']
+                'FFVerif.Props.C09EtmFn', 'FFVerif.Props.C09EtmFnShapes', 'FFVerif.Props.C09EtmFnCross']
 # module C09EtmFn (model EtmFn = error_transfer_matrix up to the expm oracle + the top of calculate_cumulant_function):
 # what is exponentiated, both input modes agree, branch selection, rejections, and the end-to-end statement
 THEOREMS = THEOREMS + ['FFVerif.C09.shortcutTaken_iff', 'FFVerif.C09.cumulant_branch_selection',
@@ -50,7 +50,10 @@ THEOREMS = THEOREMS + ['FFVerif.C09.shortcutTaken_iff', 'FFVerif.C09.cumulant_br
 etmFn_arg_is_sum_of_cumulants_single etmFn_arg_is_sum_of_cumulants_cross etm_physical_of_sum
 error_transfer_matrix_physical_single error_transfer_matrix_physical_cross cumulantFunction_rejects_iff
 decay_amplitudes_posSemidef summed_decay_amplitudes_posSemidef error_transfer_matrix_physical_of_nonneg_spectrum
-error_transfer_matrix_physical_of_nonneg_spectrum_single'''.split()]
+error_transfer_matrix_physical_of_nonneg_spectrum_single
+cross_integrand_posSemidef summed_decay_amplitudes3_posSemidef summed_decay_amplitudes_posSemidef_cross
+error_transfer_matrix_physical_of_psd_cross_spectrum'''.split()] + [
+    'FFVerif.Model.EtmFn.trapz_matrix_posSemidef', 'FFVerif.Model.EtmFn.crossBlock_posSemidef']
 PINS = ['pinBasisArrayFinalize', 'pinFourElementTraces', 'pinErrorTransferMatrix', 'C09_cumulant_source_shape']
 GEN_SITES = ['einsum:numeric_calculate_cumulant_function_', 'einsum:basis_Basis_four_element_traces_',
              'const:numeric.calculate_cumulant_function']
